@@ -184,8 +184,11 @@ func (c20) Run(t *tape.Tape, tier Tier) *Result {
 					res.add(Violation{Prop: "C20", Oracle: "equals-direct-transfer:wire", Culprit: wireDiffCulprit(a, b), Expected: fmt.Sprint(len(a), " bytes"), Observed: fmt.Sprint(len(b), " bytes, differs"), Where: where})
 				}
 			}
-			// the code a plain gRPC client sees
+			// the code callers see: on the reconstituted error, and as a plain gRPC client
 			wantCode := extgrpc.GetGrpcCode(h.err)
+			if got := extgrpc.GetGrpcCode(r.err); got != wantCode {
+				res.add(Violation{Prop: "C20", Oracle: "status-code-on-delivered-error", Culprit: "code:" + wantCode.String(), Expected: wantCode.String(), Observed: got.String(), Where: where})
+			}
 			if got := grpcstatus.Code(r.errNo); got != wantCode {
 				res.add(Violation{Prop: "C20", Oracle: "status-code-for-plain-clients", Culprit: "server-interceptor", Expected: wantCode.String(), Observed: got.String(), Where: where})
 			}
